@@ -30,6 +30,7 @@ import (
 	"testing"
 	"time"
 
+	"github.com/golang-jwt/jwt"
 	"golang.org/x/crypto/bcrypt"
 	yaml "gopkg.in/yaml.v2"
 
@@ -364,6 +365,20 @@ func TestVerifC06(t *testing.T) {
 		tok := c06JWT(alg, secret, claims[ci])
 		base := &c06Req{method: "GET", path: "/p", host: "h.example", hdr: http.Header{}}
 		put(base, tok)
+		// "currently valid" over the life of one filter instance: the library's clock seam (jwt.TimeFunc) is owned by the harness.
+		// A token with nbf may first be presented two hours early (must be rejected, and must still be accepted at the right time);
+		// mutation "same-token-after-its-expiry" re-presents the accepted token string two hours later.
+		defer func() { jwt.TimeFunc = time.Now }()
+		hasNbf, hasExp := ci == 2 || ci == 3, ci == 1 || ci == 3
+		if hasNbf && c.Choose(2, "presented-two-hours-early-first") == 1 {
+			jwt.TimeFunc = func() time.Time { return time.Unix(now-7200, 0) }
+			res, status := c06Handle(v, base)
+			jwt.TimeFunc = time.Now
+			c.Note("early (now-2h): %s -> %q %d", base, res, status)
+			if res != resultInvalid || status != 401 {
+				fail(c, "jwt", "presented-before-nbf", false, base, res, status, spec)
+			}
+		}
 		parts := strings.Split(tok, ".")
 		otherAlg := map[string]string{"HS256": "HS512", "HS384": "HS256", "HS512": "HS384"}[alg]
 		muts := []c06Mut{
@@ -379,6 +394,13 @@ func TestVerifC06(t *testing.T) {
 			{"not-yet-valid", func(r *c06Req) bool { put(r, c06JWT(alg, secret, fmt.Sprintf(`{"sub":"u","nbf":%d}`, now+3600))); return true }},
 			{"token-removed", func(r *c06Req) bool { r.hdr.Del("Cookie"); r.hdr.Del("Authorization"); return true }},
 			{"signature-truncated", func(r *c06Req) bool { put(r, parts[0]+"."+parts[1]+"."+parts[2][:len(parts[2])-2]); return true }},
+			{"same-token-after-its-expiry", func(r *c06Req) bool {
+				if !hasExp {
+					return false
+				}
+				jwt.TimeFunc = func() time.Time { return time.Unix(now+7200, 0) }
+				return true
+			}},
 		}
 		check(c, v, "jwt", fmt.Sprintf("%s/claims%d/cookie=%v", alg, ci, cookie), base, muts, 401, spec)
 	}
